@@ -268,7 +268,7 @@ func (d *DNS64) handlePTR(ctx context.Context, ch *middleware.Chain, qname strin
 	}
 	var v4 net.IP
 	for _, p := range d.cfg.prefixes {
-		if !p.net.Contains(addr) {
+		if !prefixContains(p.net, addr) {
 			continue
 		}
 		ext, ok := extractIPv4(p.net, addr)
